@@ -96,7 +96,14 @@ Open(r, w) ==
    intx  |-> FALSE,      \* between BeginTx and Finalise
    rec   |-> FALSE,      \* EIP-7928 recording active (Prepare under Amsterdam rules)
    racc  |-> {},         \* EIP-7928: accounts accessed in this transaction (R8)
-   rslot |-> NoSlots]    \* EIP-7928: slots accessed in this transaction (R8)
+   rslot |-> NoSlots,    \* EIP-7928: slots accessed in this transaction (R8)
+   fl    |-> [a \in Addr |-> w[a].st]]
+                         \* storage as of the last trie flush (open / IntermediateRoot / Commit).  Finalise only
+                         \* moves the writes of a transaction to the pending area, IntermediateRoot also pushes them
+                         \* into the tries (statedb.go: "Finalise ... will not push any updates into the tries just
+                         \* yet").  No getter of the projection depends on it (GetStorageRoot does, and is compared
+                         \* right after IntermediateRoot only); it is part of the state so that histories which mix
+                         \* the two ways of ending a transaction are different states of the graph that is replayed.
 
 Saved(S) == [w |-> S.w, tch |-> S.tch, des |-> S.des, crt |-> S.crt, trn |-> S.trn,
              ala |-> S.ala, als |-> S.als, ref |-> S.ref, logs |-> S.logs]
@@ -186,6 +193,10 @@ Finalise(S) ==
   [S EXCEPT !.w = nw, !.w0 = nw, !.tch = {}, !.des = {}, !.crt = {}, !.ref = 0, !.snaps = << >>,
             !.stk = FALSE, !.intx = FALSE, !.rec = FALSE, !.racc = {}, !.rslot = NoSlots,
             !.txn = IF S.intx THEN @ + 1 ELSE @]
+
+(* Finalise + hashing: the storage and account tries now hold the world *)
+IntermediateRoot(S) ==
+  LET T == Finalise(S) IN [T EXCEPT !.fl = [a \in Addr |-> T.w[a].st]]
 
 (* ---------------------------------- EVM feasibility (F1-F4) ---------------------------------- *)
 FeasSetNonce(S, a, n)  == S.r.eip6780 => n > S.w[a].nonce
